@@ -157,27 +157,29 @@ SameCases(e1) ==
 \* size sweep (Domains!SweepGrid): operator application and forms on supports with every number of intervals
 SweepExprs == {Id, Dn(1), Xn(1), SplLeaf, B2("Sum", Dn(2), Xn(1))}
 SweepFactor(g, e) == IF HasSpl(e) THEN <<OneVar(IF Len(g) >= 4 THEN Sup(g, 1, Len(g) - 1) ELSE SupWhole(g), VoOf(e))>> ELSE <<>>
-SweepCases(e) ==
-  UNION {LET g == SweepGrid(n)
+SweepCasesN(e, n) ==
+        (LET g == SweepGrid(n)
              W == {SupWhole(g)} \cup (IF n >= 3 THEN {Sup(g, 1, n + 1)} ELSE {})
          IN {[op |-> "OpApply", tag |-> IF e \in Prims THEN "prim" ELSE "expr", ast |-> e, a |-> OneVar(S, o), fs |-> SweepFactor(g, e), fshare |-> 1] :
                S \in W, o \in {1, 2}}
             \cup {[op |-> "OpBF", tag |-> "bf", e1 |-> e, e2 |-> e2, a |-> OneVar(SupWhole(g), 2), b |-> OneVar(Sb, 1), fs |-> SweepFactor(g, e), fshare |-> 1] :
-                    e2 \in {Id, Dn(1)}, Sb \in W \cup {Sup(g, (n + 1) \div 2, n + 1)}} :
-         n \in SweepSizes}
+                    e2 \in {Id, Dn(1)}, Sb \in W \cup {Sup(g, (n + 1) \div 2, n + 1)}})
+SweepSeq == SetToSeq(SweepExprs \X SweepSizes)
 
 CasesFor(e) ==
-  (IF e \in SweepExprs THEN SweepCases(e) ELSE {}) \cup
   (IF e \in SameFirst THEN SameCases(e) ELSE {}) \cup
   (IF e \in Prims THEN PrimCases(e) ELSE {})
   \cup (IF e \in Exprs THEN ExprCases(e) ELSE {})
   \cup (IF e \in BFOps THEN BFCases(e) ELSE {})
 
-Init == \E e \in Prims \cup Exprs \cup BFOps \cup SameFirst : st = [ph |-> 0, e |-> e]
+Init == \/ \E e \in Prims \cup Exprs \cup BFOps \cup SameFirst : st = [ph |-> 0, e |-> e, sw |-> 0]
+        \/ \E i \in DOMAIN SweepSeq : st = [ph |-> 0, e |-> SweepSeq[i][1], sw |-> i]
 Next == /\ st.ph = 0
-        /\ \E c \in CasesFor(st.e) : st' = [ph |-> 1, c |-> c]
+        /\ \E c \in (IF st.sw > 0 THEN SweepCasesN(st.e, SweepSeq[st.sw][2]) ELSE CasesFor(st.e)) : st' = [ph |-> 1, c |-> c]
 Spec == Init /\ [][Next]_st
-Emit == (st'.ph = 1) => CSVWrite("%1$s", <<ToJson(st'.c)>>, OutFile)
+\* the (long) records of one sweep state go to a file of their own: the successors of one state are written by one
+\* worker, and lines beyond 8 kB written by several workers to one file can interleave
+Emit == (st'.ph = 1) => CSVWrite("%1$s", <<ToJson(st'.c)>>, IF st.sw > 0 THEN OutFile \o "." \o ToString(st.sw) ELSE OutFile)
 
 -----------------------------------------------------------------------------
 Native(c) == \A i \in DOMAIN c.fs : c.fs[i].g = c.a.g
